@@ -460,6 +460,18 @@ def classes():
         """the same, served by the poll thread of its io module"""
         io = Attached(mandatory=False)
 
+    class ModQ(Fake, Module):
+        """not polled (enablePoll False) but with a start value to be written: it rides on the poll thread of its io
+        module for that write only (wave 8, S13k / S15k)"""
+        enablePoll = False
+        cfg_poll = cfg_slow = 1
+        io = Attached(mandatory=False)
+        w1 = Parameter('written at startup when configured', FloatRange(), default=0, readonly=False)
+
+        def write_w1(self, value):
+            env(self, 'write_w1')
+            return value
+
     class ModS0(Fake, Readable):
         """small module: one polled parameter (value); own poll thread"""
 
@@ -473,7 +485,7 @@ def classes():
         """the same, served by the poll thread of its io module"""
         io = Attached(mandatory=False)
 
-    _classes.update(PlainIO=PlainIO, PolledIO=PolledIO, ModA0=ModA0, ModA=ModA, ModB=ModB, ModS0=ModS0, ModS=ModS)
+    _classes.update(PlainIO=PlainIO, PolledIO=PolledIO, ModA0=ModA0, ModA=ModA, ModB=ModB, ModS0=ModS0, ModS=ModS, ModQ=ModQ)
     return _classes
 
 
@@ -514,6 +526,10 @@ LAYOUTS = {
     'io+A+S+T': ('PlainIO', [('a', 'ModA'), ('s', 'ModS'), ('t', 'ModS')]),
     'io+S+T+U+V': ('PlainIO', [('s', 'ModS'), ('t', 'ModS'), ('u', 'ModS'), ('v', 'ModS')]),
     'IO+B+S+T': ('PolledIO', [('io', 'PolledIO'), ('b', 'ModB'), ('s', 'ModS'), ('t', 'ModS')]),
+    # third element: modules that are not polled and sit on the thread only for their start-up write
+    'io+S+Q': ('PlainIO', [('s', 'ModS')], [('q', 'ModQ')]),
+    'io+Q+S+T': ('PlainIO', [('s', 'ModS'), ('t', 'ModS')], [('q', 'ModQ')], 'first'),
+    'IO+A+Q': ('PolledIO', [('io', 'PolledIO'), ('a', 'ModA')], [('q', 'ModQ')]),
 }
 
 
@@ -524,10 +540,15 @@ class World:
         from vf import nodes
         cls = classes()
         self.cfg = cfg
-        ioclass, mods = LAYOUTS[cfg['layout']]
+        ioclass, mods = LAYOUTS[cfg['layout']][:2]
+        riders = LAYOUTS[cfg['layout']][2] if len(LAYOUTS[cfg['layout']]) > 2 else []
+        riders_first = len(LAYOUTS[cfg['layout']]) > 3
         modcfg = {}
         if ioclass:
             modcfg['io'] = {'cls': cls[ioclass]}
+        if riders_first:
+            for name, cname in riders:
+                modcfg[name] = {'cls': cls[cname], 'io': 'io', 'w1': {'value': 1.5}}
         self.polled = []         # (name, class name, pollinterval, slowinterval)
         for (name, cname), (pi, si) in zip(mods, cfg['ivals']):
             c = modcfg.setdefault(name, {'cls': cls[cname]})
@@ -543,6 +564,9 @@ class World:
             if cname in ('ModA', 'ModA0'):
                 c['w1'] = {'value': 1.5}
             self.polled.append((name, cname, pi, si))
+        for name, cname in riders:
+            modcfg.setdefault(name, {'cls': cls[cname], 'io': 'io', 'w1': {'value': 1.5}})
+        self.riders = [name for name, _ in riders]
         self.node = nodes.Node(modcfg)
         import logging
         self.mods = self.node.secnode.modules
@@ -687,6 +711,17 @@ def judge(world, run):
         res.append(('C13:started-callback:fired-more-than-once', f'started callback fired {len(started)} times'))
     elif not started and in_main_loop and not died:
         res.append(('C13:started-callback:not-fired', 'poll loop running but the started callback never fired'))
+
+    # start-up write of the modules that are not polled: handed to the driver exactly once, nothing else ever called
+    for name in getattr(world, 'riders', ()):
+        mine = [r for r in calls if r[1] == name]
+        if [r[2] for r in mine if r[2] != 'write_w1']:
+            res.append(('C13:not-polled-module:called-by-poller', f'{name}: {[r[2] for r in mine]}'))
+        nwr = len([r for r in mine if r[2] == 'write_w1'])
+        # after a failing call during start-up the tree gives the remaining start-up work up by design ("we do not continue
+        # trying"): an absent write is demanded only of a start-up in which every driver call succeeded
+        if nwr > 1 or (nwr == 0 and kind != 'exception' and all(r[5] == 'ok' for r in calls)):
+            res.append((f'C13:not-polled-module:start-value-written-{nwr}-times', f'{name}.write_w1 called {nwr} times'))
 
     # M3 nopoll
     for name, cname, _, _ in world.polled:
@@ -842,6 +877,10 @@ def configs(tier):
     add('io+A+B', [(1, 2)])
     add('IO+S', [(0, 2), (1, 2)], base='busy')
     add('io+S+T', [(1, 2)], base='busy', pollcfg='default')
+    # a module that is not polled riding on the thread for its start-up write (declared after / before the polled ones)
+    add('io+S+Q', [(1, 2)])
+    add('io+Q+S+T', [(1, 2)], pollcfg='default')
+    add('IO+A+Q', [(5, 2), (1, 2)])
     # the failure CLASS as a dimension: every exception class a driver can raise (all SECoP error classes of the tree under
     # test, silent and not, + builtins) x every site (doPoll, read_* through the wrapper, ReadHandler, CommonReadHandler,
     # initialReads, write_* in writeInitParams); the class only matters where the exception is handled: <= 1 deviation
